@@ -213,6 +213,19 @@ theorem evalCond_mono (c : Ctx) (cd : CondSpec) : CMono c (evalCond c cd).1 := b
       have hm := nodeCmp_mono c cd.l cd.r cd.staticL cd.staticR cd.op
       cases (nodeCmp c cd.l cd.r cd.staticL cd.staticR cd.op).2.2.err <;> exact hm
 
+theorem evalCondOK_mono (c : Ctx) (k : CondOKSpec) : CMono c (evalCondOK c k).1 := by
+  unfold evalCondOK
+  cases applyCondOKFn k.cd.hlp with
+  | none => exact CMono.refl c
+  | some fn =>
+    simp only
+    have hm := collectHlpArgs_mono k.cd.hlpArg c
+    split
+    · exact hm
+    · split
+      · exact hm.trans (CMono.of_eq rfl rfl rfl)
+      · exact (hm.trans (CMono.of_eq rfl rfl rfl)).trans (nodeCmp_mono _ _ _ _ _ _)
+
 theorem evalCase_mono (c : Ctx) (arg : Bytes) (k : CaseSpec) : CMono c (evalCase c arg k).1 := by
   unfold evalCase
   by_cases h1 : (!arg.isEmpty) = true
